@@ -247,12 +247,18 @@ def rule_b(ctx, ix, f):
         names = set()
         for st in body:
             if isinstance(st, ast.Assign):
-                tg = _tag(st.value, seed, roi_p)
-                names.add(unparse(st.targets[0]))
-                ctx.ob(R, 'glue.core.subset:roi_to_subset_state `%s`' % norm(st), 'the %s-oriented range uses the %s attribute/categories'
-                       % (want.lower(), want.lower()), tg == {want},
-                       detail='in the branch for %s-oriented range regions `%s` picks a %s-axis quantity: the range is applied to the '
-                              'wrong attribute' % (want.lower(), norm(st), '/'.join(sorted(tg)).lower() or 'non-axis'), where=where(f, st))
+                # `a, b = x, y` is `a = x; b = y`
+                pairs = [(st.targets[0], st.value)]
+                if isinstance(st.targets[0], ast.Tuple) and isinstance(st.value, ast.Tuple) and len(st.targets[0].elts) == len(st.value.elts):
+                    pairs = list(zip(st.targets[0].elts, st.value.elts))
+                for tgt_e, val_e in pairs:
+                    tg = _tag(val_e, seed, roi_p)
+                    names.add(unparse(tgt_e))
+                    txt = '%s = %s' % (unparse(tgt_e), unparse(val_e))
+                    ctx.ob(R, 'glue.core.subset:roi_to_subset_state `%s`' % txt, 'the %s-oriented range uses the %s attribute/categories'
+                           % (want.lower(), want.lower()), tg == {want},
+                           detail='in the branch for %s-oriented range regions `%s` picks a %s-axis quantity: the range is applied to the '
+                                  'wrong attribute' % (want.lower(), txt, '/'.join(sorted(tg)).lower() or 'non-axis'), where=where(f, st))
         if len(names) < 2:
             raise AnalysisError('roi_to_subset_state: range branch no longer assigns attribute and categories per orientation')
     # (2) rectangle decomposition
